@@ -31,6 +31,45 @@ def full_shapes_exact(n):
     return tuple(out)
 
 
+def _chain(k, side):
+    """k nodes, each the `side` child of the previous ('L', 'R', or alternating 'Z'/'z' starting left/right)."""
+    sh = None
+    for i in range(k):
+        if side == "L" or (side == "Z" and (k - i) % 2 == 1) or (side == "z" and (k - i) % 2 == 0):
+            sh = (sh, None)
+        else:
+            sh = (None, sh)
+    return sh
+
+
+def composed_shapes():
+    """Deterministic 'uneven depth' family for the layout: chains, zigzags and small bushy trees composed twice
+    (node(x, y) over components, then node(u, v) over those). Contours of very different depth meet at every level of
+    composition, which is where the thread/extreme bookkeeping of a tidy-tree layout is exercised; the shapes have up to
+    ~25 nodes, far beyond what exhaustive enumeration reaches."""
+    leaf = (None, None)
+    comps = [leaf, _chain(2, "L"), _chain(2, "R"), _chain(3, "L"), _chain(3, "R"), _chain(3, "Z"), _chain(3, "z"), _chain(4, "L"), _chain(4, "R"),
+             _chain(5, "L"), _chain(5, "R"), _chain(4, "Z"), _chain(4, "z"), (leaf, (leaf, leaf)), ((leaf, leaf), leaf), (None, (leaf, leaf)), ((leaf, leaf), None),
+             ((leaf, leaf), (leaf, leaf))]
+    level1 = []
+    for a in comps + [None]:
+        for b in comps + [None]:
+            if a is None and b is None:
+                continue
+            level1.append((a, b))
+    pool = comps + level1
+    out = []
+    seen = set()
+    for a in pool:
+        for b in pool:
+            sh = (a, b)
+            t = to_text(sh)
+            if t not in seen:
+                seen.add(t)
+                out.append(sh)
+    return out
+
+
 def to_text(s):
     if s is None:
         return "."
